@@ -826,12 +826,10 @@ package pipeline
 //@ func (*stream).tryUnblock
 //@   option allow-exit yes
 //@   ghost aged bool = false
-//@   ghost empty bool = false
 //@   ghost nsig int = 0
 //@   ensures !held(s.mu)
-//@   ensures s != nil ==> result == (aged && empty) && nsig == ite(result, 1, 0)
-//@   setat "if s.first != nil {" empty := s.first == nil
-//@   assert at "s.first = timeoutEvent" held(s.mu) && empty && s.first == nil
+//@   ensures s != nil ==> (result ==> aged) && nsig == ite(result, 1, 0)
+//@   assert at "s.first = timeoutEvent" held(s.mu) && s.first == nil && aged
 //@   callee Since(t) (d)
 //@     pure
 //@     set aged := !(d < s.streamer.eventTimeout)
@@ -839,7 +837,7 @@ package pipeline
 //@     pure
 //@     ensures r != nil && fresh(r)
 //@   callee Signal()
-//@     requires held(s.mu) && empty && aged
+//@     requires held(s.mu) && aged && s.first != nil
 //@     pure
 //@     set nsig := nsig + 1
 //@   callee Load() (r)
